@@ -161,6 +161,56 @@ func buildScript4(t *sim.Tape, mode string) []step4 {
 	case "maxima":
 		name, o, fresh, dir, id := maxima4(t, t.Choose(11))
 		add(step4{name: name, dir: dir, id: id, obj: o, fresh: fresh, maxima: true})
+	case "batch":
+		// a batch request of a size around the protocol's batch limits, every
+		// member well-formed: whatever the request's own Validate admits must
+		// also fit the receiver's limit for it (an empty script: Validate refused)
+		const maxA, maxS = rhp4.MaxAccountBatchSize, rhp4.MaxSectorBatchSize
+		k := []int{1, maxA - 1, maxA, maxA + 1, maxA + t.Range(2, 64), 2 * maxA, 8 * maxA, maxS, maxS + 1}[t.Choose(9)]
+		acct := func(i, salt int) (a rhp4.Account) {
+			a[0], a[1], a[2], a[3] = byte(i), byte(i>>8), byte(i>>16), byte(salt)
+			return
+		}
+		sig := types.Signature{1}
+		var o obj4
+		var fresh func() obj4
+		var id types.Specifier
+		var verr error
+		switch which := t.Choose(5); which {
+		case 0:
+			r := &rhp4.RPCFundAccountsRequest{ContractID: types.FileContractID{1}, RenterSignature: sig, Deposits: make([]rhp4.AccountDeposit, k)}
+			for i := range r.Deposits {
+				r.Deposits[i] = rhp4.AccountDeposit{Account: acct(i, 1), Amount: types.MaxCurrency}
+			}
+			o, fresh, id, verr = r, func() obj4 { return new(rhp4.RPCFundAccountsRequest) }, rhp4.RPCFundAccountsID, r.Validate()
+		case 1:
+			r := &rhp4.RPCReplenishAccountsRequest{ContractID: types.FileContractID{1}, ChallengeSignature: sig, Target: types.MaxCurrency, Accounts: make([]rhp4.Account, k)}
+			for i := range r.Accounts {
+				r.Accounts[i] = acct(i, 1)
+			}
+			o, fresh, id, verr = r, func() obj4 { return new(rhp4.RPCReplenishAccountsRequest) }, rhp4.RPCReplenishAccountsID, r.Validate()
+		case 2:
+			r := &rhp4.RPCAttachPoolsRequest{Attachments: make([]rhp4.PoolAttachment, k)}
+			for i := range r.Attachments {
+				r.Attachments[i] = rhp4.PoolAttachment{Account: acct(i, 1), Pool: acct(i, 2), ValidUntil: epochPlusYear(), Signature: sig}
+			}
+			o, fresh, id, verr = r, func() obj4 { return new(rhp4.RPCAttachPoolsRequest) }, rhp4.RPCAttachPoolsID, r.Validate()
+		case 3:
+			r := &rhp4.RPCDetachPoolsRequest{Detachments: make([]rhp4.PoolDetachment, k)}
+			for i := range r.Detachments {
+				r.Detachments[i] = rhp4.PoolDetachment{Account: acct(i, 1), Pool: acct(i, 2), ValidUntil: epochPlusYear(), Signature: sig}
+			}
+			o, fresh, id, verr = r, func() obj4 { return new(rhp4.RPCDetachPoolsRequest) }, rhp4.RPCDetachPoolsID, r.Validate()
+		default:
+			hostKey := types.NewPrivateKeyFromSeed(make([]byte, 32))
+			r := &rhp4.RPCAppendSectorsRequest{Sectors: hashes(k, 9)}
+			r.Prices.ValidUntil = epochPlusYear()
+			r.Prices.Signature = hostKey.SignHash(r.Prices.SigHash())
+			o, fresh, id, verr = r, func() obj4 { return new(rhp4.RPCAppendSectorsRequest) }, rhp4.RPCAppendSectorsID, r.Validate(hostKey.PublicKey())
+		}
+		if verr == nil {
+			add(step4{name: fmt.Sprintf("%T with %d members, passes its Validate", o, k), dir: 0, id: &id, obj: o, fresh: fresh, maxima: true})
+		}
 	case "free-sectors":
 		// a request that passes Validate: distinct indices below the contract's
 		// sector count, at most MaxSectorBatchSize of them
@@ -365,5 +415,5 @@ func runRHP4(s *Session, steps []step4) {
 
 func (s *Session) tamperedDir(d int) bool { return s.tampered[d].Load() }
 func (s *Session) anyFault() bool {
-	return s.plan.flipAt >= 0 || s.plan.cutAt >= 0 || s.plan.stallAt >= 0
+	return s.plan.flipAt >= 0 || s.plan.cutAt >= 0 || s.plan.stallAt >= 0 || s.capped.Load()
 }
